@@ -40,6 +40,8 @@ def cps(s):
 # without its final period, description = all paragraphs joined by blank lines)
 
 def doc_help(lines):
+    # a doc attribute may hold several lines (block comments): split, then drop one leading blank of each
+    lines = [x for l in lines for x in l.lstrip("@").split("\n")]
     lines = [l[1:] if l.startswith(" ") else l for l in lines]
     while lines and not lines[0].strip():
         lines.pop(0)
@@ -247,7 +249,10 @@ def gen_rust(enums):
         w("pub enum %s%s {" % (name, gen))
         for v in e["variants"]:
             for d in v["doc"]:
-                w("    ///%s" % d)
+                if d.startswith("@"):
+                    w("    #[doc = %s]" % rust_str(d[1:]))
+                else:
+                    w("    ///%s" % d)
             attrs = []
             if v["name"] is not None:
                 attrs.append("name = %s" % rust_str(v["name"]))
@@ -443,6 +448,9 @@ def core():
         variant("Opt", [arg("x", "bool", short=True)], sub="leaf", sub_optional=True, sub_field="action"),
         variant("Tup", sub="leaf", tuple_sub=True, doc=[" Tuple sub-command"]),
         variant("Ping"),
+        variant("TupOpt", sub="leaf", tuple_sub=True, sub_optional=True),
+        variant("Block", [arg("n", "u8", optional=True)],
+                doc=["@ Block comment, first line\n continues on the second.\n\n Second paragraph\n of the block.", " Trailing line."]),
     ], title="Top"))
     # multi-byte names, name given explicitly, one name a prefix of another, help-like names
     E.append(command("names", [
@@ -459,6 +467,8 @@ def core():
     E.append(group("grp", [("Base", "base", False), ("Hid", "hid", True), ("Plain", "plain", False), ("Empty", "empty", False)]))
     E.append(group("grp2", [("Top", "top", False), ("Args", "args", False), ("Names", "names", False)]))
     E.append(group("grp3", [("Hid", "hid", True), ("Leaf", "leaf", False)]))
+    # a group whose members are groups themselves
+    E.append(group("grp4", [("Inner", "grp3", False), ("Outer", "grp", False), ("Names", "names", True)]))
     return E
 
 
